@@ -85,17 +85,61 @@ pub fn hash128(data: &[u8]) -> (u64, u64) {
     (mix64(a ^ data.len() as u64), mix64(b ^ (data.len() as u64).rotate_left(32)))
 }
 
+/// Byte runs that look like protocol structure when they occur inside data: packet headers (full
+/// fragments, empty packets, a framed COM_QUIT / COM_PING / COM_QUERY), length-prefix markers,
+/// OK / EOF / ERR first bytes, NUL runs.
+const HOSTILE_BIN: [&[u8; 8]; 12] = [
+    b"\xff\xff\xff\x00\xff\xff\xff\x01",
+    b"\xff\xff\xff\xff\xff\xff\xff\xff",
+    b"\x00\x00\x00\x00\x00\x00\x00\x00",
+    b"\x01\x00\x00\x00\x01\x01\x00\x00",
+    b"\x01\x00\x00\x00\x0e\x00\x00\x00",
+    b"\x03\x00\x00\x00\x03\x53\x45\x4c",
+    b"\xfb\xfb\xfc\x00\x01\xfd\x00\x00",
+    b"\xfe\x00\x00\x02\x00\x00\x00\xfe",
+    b"\xff\x15\x04#2800",
+    b"\x00\x00\x00\x02\x00\x00\x00\x00",
+    b"\x05\x00\x00\x00\x19\x01\x00\x00",
+    b"\xfe\xff\xff\xff\xff\xff\xff\xff",
+];
+/// The same idea for text (every entry is 8 bytes of valid UTF-8): quotes, escapes, comment
+/// openers, statement separators, the built-in prefixes in mid-text, NUL, multi-byte characters.
+const HOSTILE_TXT: [&str; 12] = [
+    "';--\\\"`@",
+    "/*!4*/#\n",
+    "\u{4e2d}\u{4e2d}\u{e9}",
+    "\u{1f600}\u{1f600}",
+    " \t\n\r\0 ; ",
+    "NULL OK ",
+    "@@x;USE ",
+    "%_\\%\\_``",
+    "SELECT @",
+    "use `a`;",
+    "\u{7f}\u{1}\u{0}\u{0}\u{0}\u{e}\u{1}\u{0}",
+    "\u{ff}\u{ff}\u{fb}\u{fe}",
+];
+
 /// Position-dependent byte stream: byte at `off` of the payload identified by (seed, id).
 /// Cheap to generate for tens of MB and every 8-byte block is unique to (seed,id,off/8).
+/// One payload in four (chosen by its identity) is *hostile*: about a third of its blocks (never the
+/// first) are replaced by byte runs that resemble protocol structure, so that code which looks at
+/// the content of data rather than at its framing has something to trip over.
 pub fn stream_fill(out: &mut Vec<u8>, seed: u64, id: u64, len: usize, printable: bool) {
     let base = mix64(seed ^ id.wrapping_mul(0x9E37_79B9_7F4A_7C15));
+    let hostile = mix64(base ^ 0x5bd1_e995) % 4 == 0;
     let start = out.len();
     out.reserve(len);
     let mut blk = 0u64;
     while out.len() - start < len {
         let x = mix64(base ^ blk.wrapping_mul(0xD6E8_FEB8_6659_FD93)).to_le_bytes();
         let k = (len - (out.len() - start)).min(8);
-        if printable {
+        if hostile && blk > 0 && k == 8 && x[7] % 3 == 0 {
+            if printable {
+                out.extend_from_slice(HOSTILE_TXT[(x[6] % 12) as usize].as_bytes());
+            } else {
+                out.extend_from_slice(&HOSTILE_BIN[(x[6] % 12) as usize][..]);
+            }
+        } else if printable {
             for &c in &x[..k] {
                 // 'a'..'z' / '0'..'5': valid UTF-8, never whitespace, quote, '@' or ';'
                 let c = c % 32;
@@ -106,6 +150,41 @@ pub fn stream_fill(out: &mut Vec<u8>, seed: u64, id: u64, len: usize, printable:
         }
         blk += 1;
     }
+}
+
+/// The content generators keep their promises: requested length, valid UTF-8 in text mode, a plain
+/// first block, and hostile payloads do occur.
+pub fn selfcheck() -> Result<(), String> {
+    for t in HOSTILE_TXT.iter() {
+        if t.len() != 8 {
+            return Err(format!("hostile text block {:?} is {} bytes", t, t.len()));
+        }
+    }
+    let mut hostile_seen = 0;
+    for id in 0..64u64 {
+        for &len in &[0usize, 1, 7, 8, 9, 100, 1001] {
+            let mut t = Vec::new();
+            stream_fill(&mut t, 42, id, len, true);
+            let mut b = Vec::new();
+            stream_fill(&mut b, 42, id, len, false);
+            if t.len() != len || b.len() != len {
+                return Err("stream_fill length".into());
+            }
+            if std::str::from_utf8(&t).is_err() {
+                return Err("stream_fill text is not UTF-8".into());
+            }
+            if !t.iter().take(8).all(|c| c.is_ascii_lowercase() || c.is_ascii_digit()) {
+                return Err("stream_fill first block".into());
+            }
+            if len == 1001 && b.windows(3).any(|w| w == [0xff, 0xff, 0xff]) {
+                hostile_seen += 1;
+            }
+        }
+    }
+    if hostile_seen < 4 {
+        return Err("stream_fill never produced hostile content".into());
+    }
+    Ok(())
 }
 
 pub fn hex(b: &[u8]) -> String {
